@@ -10,11 +10,13 @@ import (
 	"bytes"
 	"fmt"
 	"math/big"
+	"strings"
 
 	"github.com/bronlabs/bron-crypto/pkg/base/algebra"
 	"github.com/bronlabs/bron-crypto/pkg/base/base58"
 	"github.com/bronlabs/bron-crypto/pkg/base/curves"
 	"github.com/bronlabs/bron-crypto/pkg/base/serde"
+	"github.com/bronlabs/bron-crypto/pkg/base/utils"
 	"github.com/bronlabs/bron-crypto/pkg/signatures/bls"
 	"github.com/bronlabs/bron-crypto/pkg/signatures/ecdsa"
 	"github.com/bronlabs/bron-crypto/pkg/signatures/schnorrlike"
@@ -76,6 +78,24 @@ func (r *run) wireReport(scheme, comp, class, caseText, what, detail, obs string
 		return true
 	}
 	return false
+}
+
+// wireReportReducing is for the decoders that reduce unreduced coordinates / scalars (allowed: property C13 does
+// not claim uniqueness of the accepted encoding).  obs is "rej", "acc", "panic", or "same:<verdict>" when the string
+// decoded to struct-level values identical to the canonical string's: that is the same signature and must get the
+// canonical string's verdict (acc).  Only a different decoded value that verifies, a panic, or a differing verdict is reported.
+func (r *run) wireReportReducing(scheme, comp, class, caseText, what, detail, obs string) bool {
+	if strings.HasPrefix(obs, "same:") {
+		r.res.Count(class+"/noncanonical-same-value", caseText+"/"+comp+"/"+detail, true)
+		r.reduced[scheme+" "+comp]++
+		if obs != "same:acc" {
+			r.prop(scheme+"-noncanonical-"+comp+"-verdict-differs", caseText, what,
+				"a string that decodes to the same values as the canonical string gets another verdict: component "+comp+" replaced by "+detail+": "+obs)
+			return true
+		}
+		return false
+	}
+	return r.wireReport(scheme, comp, class, caseText, what, detail, obs)
 }
 
 // ---- Mina: raw 64 bytes and Base58Check ------------------------------------------------------------------------
@@ -217,13 +237,16 @@ func genericWire[GE algebra.PrimeGroupElement[GE, S], S algebra.PrimeFieldElemen
 			if verify(sg) {
 				out = "acc"
 			}
+			if !utilsNil(sg.R) && !utilsNil(sg.S) && sg.R.Equal(sig.R) && sg.S.Equal(sig.S) {
+				out = "same:" + out
+			}
 		})
 		if p != "" {
 			return "panic"
 		}
 		return out
 	}
-	if o := try(enc); o != "acc" {
+	if o := try(enc); o != "same:acc" {
 		r.prop("schnorr-cbor-roundtrip-rejected-"+env.name, caseText, what, "decode(encode(sig)) does not verify: "+o)
 		return
 	}
@@ -235,7 +258,7 @@ func genericWire[GE algebra.PrimeGroupElement[GE, S], S algebra.PrimeFieldElemen
 	s := new(big.Int).SetBytes(sb)
 	for _, w := range nonCanonical(s, env.n, len(sb)) {
 		data := append(append(append([]byte{}, enc[:idx]...), beBytes(w.v, len(sb))...), enc[idx+len(sb):]...)
-		r.wireReport("schnorr", "s", class, caseText, what, fmt.Sprintf("%s (%s) in CBOR %s", w.what, env.name, vh.Hex(data)), try(data))
+		r.wireReportReducing("schnorr", "s", class, caseText, what, fmt.Sprintf("%s (%s) in CBOR %s", w.what, env.name, vh.Hex(data)), try(data))
 	}
 	// Pallas compressed R: little-endian x with the y-sign in bit 255
 	if env.name == "pallas" {
@@ -257,11 +280,11 @@ func genericWire[GE algebra.PrimeGroupElement[GE, S], S algebra.PrimeFieldElemen
 				nb := leBytes(w.v, 32)
 				nb[31] |= flag
 				data := append(append(append([]byte{}, enc[:ridx]...), nb...), enc[ridx+32:]...)
-				r.wireReport("schnorr", "R", class, caseText, what, fmt.Sprintf("x %s (%s) in CBOR %s", w.what, env.name, vh.Hex(data)), try(data))
+				r.wireReportReducing("schnorr", "R", class, caseText, what, fmt.Sprintf("x %s (%s) in CBOR %s", w.what, env.name, vh.Hex(data)), try(data))
 			}
 			data := append([]byte{}, enc...)
 			data[ridx+31] ^= 0x80
-			r.wireReport("schnorr", "R", class, caseText, what, fmt.Sprintf("sign bit flipped (%s) in CBOR %s", env.name, vh.Hex(data)), try(data))
+			r.wireReportReducing("schnorr", "R", class, caseText, what, fmt.Sprintf("sign bit flipped (%s) in CBOR %s", env.name, vh.Hex(data)), try(data))
 		}
 	}
 	// SEC1 compressed R: other prefix bytes
@@ -272,12 +295,12 @@ func genericWire[GE algebra.PrimeGroupElement[GE, S], S algebra.PrimeFieldElemen
 			for _, pfx := range []byte{rb[0] ^ 1, 0x00, 0x04, 0x06} {
 				data := append([]byte{}, enc...)
 				data[ridx] = pfx
-				r.wireReport("schnorr", "R", class, caseText, what, fmt.Sprintf("prefix %02x (%s) in CBOR %s", pfx, env.name, vh.Hex(data)), try(data))
+				r.wireReportReducing("schnorr", "R", class, caseText, what, fmt.Sprintf("prefix %02x (%s) in CBOR %s", pfx, env.name, vh.Hex(data)), try(data))
 			}
 			x := new(big.Int).SetBytes(rb[1:])
 			for _, w := range nonCanonical(x, env.ref.p, 32) {
 				data := append(append(append([]byte{}, enc[:ridx+1]...), beBytes(w.v, 32)...), enc[ridx+33:]...)
-				r.wireReport("schnorr", "R", class, caseText, what, fmt.Sprintf("x %s (%s) in CBOR %s", w.what, env.name, vh.Hex(data)), try(data))
+				r.wireReportReducing("schnorr", "R", class, caseText, what, fmt.Sprintf("x %s (%s) in CBOR %s", w.what, env.name, vh.Hex(data)), try(data))
 			}
 		}
 	}
@@ -351,6 +374,9 @@ func ecdsaWire[P curves.Point[P, B, S], B algebra.PrimeFieldElement[B], S algebr
 				if vfy.Verify(&s2, pk, msg) == nil {
 					out = "acc"
 				}
+				if s2.R().Equal(sig.R()) && s2.S().Equal(sig.S()) && (s2.V() == nil) == (vp == nil) && (vp == nil || *s2.V() == *vp) {
+					out = "same:" + out
+				}
 			})
 			if p != "" {
 				return "panic"
@@ -358,7 +384,7 @@ func ecdsaWire[P curves.Point[P, B, S], B algebra.PrimeFieldElement[B], S algebr
 			return out
 		}
 		r.res.Count(class, caseText, true)
-		if o := try(enc); o != "acc" {
+		if o := try(enc); o != "same:acc" {
 			r.prop("ecdsa-cbor-roundtrip-rejected-"+env.name, caseText, what, "decode(encode(sig)) does not verify: "+o)
 			return
 		}
@@ -374,7 +400,10 @@ func ecdsaWire[P curves.Point[P, B, S], B algebra.PrimeFieldElement[B], S algebr
 			for _, w := range nonCanonical(comp.c, n, 32) {
 				data := append(append(append([]byte{}, enc[:ci]...), beBytes(w.v, 32)...), enc[ci+32:]...)
 				obs := try(data)
-				pf := r.wireReport("ecdsa", comp.name, class, caseText, what, fmt.Sprintf("%s (%s, v present=%v) in CBOR %s", w.what, env.name, vp != nil, vh.Hex(data)), obs)
+				pf := r.wireReportReducing("ecdsa", comp.name, class, caseText, what, fmt.Sprintf("%s (%s, v present=%v) in CBOR %s", w.what, env.name, vp != nil, vh.Hex(data)), obs)
+				if strings.HasPrefix(obs, "same:") {
+					continue // same struct-level values: the model's prediction for the canonical values applies
+				}
 				// the model's verifier works on the integers carried by the string
 				rv, sv := rr, ss
 				if comp.name == "r" {
@@ -508,6 +537,9 @@ func blsWire[
 			if vf.Verify(sg, pk, msg) == nil {
 				out = "acc"
 			}
+			if pk.Value().Equal(sk.PublicKey().Value()) && sg.Value().Equal(sig.Value()) {
+				out = "same:" + out
+			}
 		})
 		if p != "" {
 			return "panic"
@@ -515,16 +547,18 @@ func blsWire[
 		return out
 	}
 	r.res.Count(class, caseText, true)
-	if o := try(pkb, sgb); o != "acc" {
+	if o := try(pkb, sgb); o != "same:acc" {
 		r.prop("bls-serialised-rejected-"+env.name, caseText, blsWhat, "decode(compressed sig), decode(compressed key) do not verify: "+o)
 		return
 	}
 	vs, ns := blsVariants(sgb)
 	for i, v := range vs {
-		r.wireReport("bls", "sig", class, caseText, blsWhat, fmt.Sprintf("%s (%s): %s", ns[i], env.name, vh.Hex(v)), try(pkb, v))
+		r.wireReportReducing("bls", "sig", class, caseText, blsWhat, fmt.Sprintf("%s (%s): %s", ns[i], env.name, vh.Hex(v)), try(pkb, v))
 	}
 	vs, ns = blsVariants(pkb)
 	for i, v := range vs {
-		r.wireReport("bls", "pk", class, caseText, blsWhat, fmt.Sprintf("%s (%s): %s", ns[i], env.name, vh.Hex(v)), try(v, sgb))
+		r.wireReportReducing("bls", "pk", class, caseText, blsWhat, fmt.Sprintf("%s (%s): %s", ns[i], env.name, vh.Hex(v)), try(v, sgb))
 	}
 }
+
+func utilsNil(x any) bool { return utils.IsNil(x) }
